@@ -88,7 +88,7 @@ Fixpoint chain_go (fuel:nat) (t:Z) (fat:list Z) (i:Z) : list Z * bool :=
   match fuel with
   | O => ([], false)
   | S f =>
-    if (i <? 0) || (lenZ fat <=? i) then ([], false) else
+    if (i <? Gen.MIN_DATA_CLUSTER t) || (lenZ fat <=? i) then ([], false) else
     let v := nthZ fat i in
     if is_data t v then (let '(r, ok) := chain_go f t fat v in (i :: r, ok))
     else if is_eoc t v then ([i], true) else ([], false)
